@@ -456,6 +456,25 @@ def run(chk):
                           "a registration made by another thread in between is overwritten / lost" % (earlier_reads[0][0], op or "an assignment"))
     r7.ob("functions that touch one guarded table in two critical sections: %d examined" % nsec, True, "", "", "")
 
+    # ------------------------------------------------------------------ R13.8 process-wide Boxed_Value objects
+    r8 = chk.rule("R13.8", "no Boxed_Value with static storage duration is handed to evaluation: such an object is shared by all threads (and engines) without any lock, and its attribute map is writable through a const handle",
+                  "concurrent evaluation is free of data races")
+    from . import c14
+    nbv = 0
+    seen8 = set()
+    for key, st in sorted(prog.statics.items(), key=lambda kv: (kv[1]["file"], kv[1]["line"])):
+        if not st["file"].startswith("include/") or not c14.is_boxed_value_singleton(st):
+            continue
+        ident = strip_targs(st["q"])
+        if ident in seen8:
+            continue
+        seen8.add(ident)
+        nbv += 1
+        r8.ob("static %s is not shared mutable state" % ident, False, "%s:%d" % (st["file"], st["line"]), st.get("infn", ""),
+              "%s is returned (as a handle to the same Data record) to every thread; get_var_attr / copy_var_attrs / clone_var_attrs create and replace "
+              "the record's attribute map without synchronisation: two threads evaluating `true.get_var_attr(\"k\")` race" % st["q"])
+    r8.ob("Boxed_Value objects with static storage duration: %d" % nbv, True, "", "", "")
+
     # ------------------------------------------------------------------ R13.3 locks held across calls
     r3 = chk.rule("R13.3", "no non-recursive mutex is held across a call that can re-acquire it on the same object or reach user code",
                   "no self-deadlock; user callbacks never run under an engine lock they might need")
